@@ -8,6 +8,7 @@ package util
 //@ method util.Unpackable Unpack(data []byte) (n uint, err error)
 //@   props C01
 //@   decoder
+//@   requires sep(self, data)
 //@   ensures [consumed] err == nil ==> n <= uint(len(data))
 
 //@ func unpackUInt16(data []byte, output *uint16) (n uint, err error)
@@ -41,18 +42,7 @@ package util
 //@   assigns *output
 
 //@ func Unpack(data []byte, output interface{}) (n uint, err error)
-//@   props C01
-//@   decoder
 //@   inline
-//@   requires payload(output) != 0
-//@   ensures [consumed] err == nil ==> n <= uint(len(data))
 
 //@ func UnpackSome(data []byte, outputs ...interface{}) (n uint, err error)
-//@   props C01
-//@   decoder
 //@   inline
-//@   requires forall i in 0..len(outputs) :: payload(outputs[i]) != 0
-//@   ensures [consumed] err == nil ==> n <= uint(len(data))
-//@   loop 0 invariant n <= uint(len(data)) && -1 <= rangeindex && rangeindex < len(outputs)
-//@   loop 0 decreases len(outputs) - rangeindex
-//@   loop 0 assigns nothing
